@@ -224,6 +224,8 @@ func structsMain(dirs []string, out string) {
 		items = append(items, fmt.Sprintf("mkcacc %s %s %s %s %s %s %d", q(a.strct), q(a.method), q(a.field), a.kind, lst(a.locks), q(a.file), a.line))
 	}
 	sb.WriteString(strings.Join(items, ";\n    ") + " ].\n")
+	escs, muts := analyseEscapes(fset, files, fnames)
+	sb.WriteString(printEscapes(escs, muts))
 	old, _ := os.ReadFile(out)
 	if string(old) != sb.String() {
 		if err := os.WriteFile(out, []byte(sb.String()), 0o644); err != nil {
@@ -234,5 +236,5 @@ func structsMain(dirs []string, out string) {
 	} else {
 		fmt.Println("unchanged", out)
 	}
-	fmt.Printf("client_accesses=%d structs=%d\n", len(accs), len(fields))
+	fmt.Printf("client_accesses=%d structs=%d escapes=%d mutations=%d\n", len(accs), len(fields), len(escs), len(muts))
 }
